@@ -32,6 +32,7 @@ type PropCfg struct {
 	Bounded     []string `json:"bounded,omitempty"`
 	Thorough    []string `json:"thorough_extra,omitempty"`
 	Replay      string   `json:"replay,omitempty"`
+	Lean        []LeanCfg `json:"lean,omitempty"`
 }
 
 func main() {
@@ -310,6 +311,11 @@ func cmdCheck(args []string) int {
 		}
 		for _, sc := range cfg.Scans {
 			v.runScan(sc, results)
+		}
+		for _, lc := range cfg.Lean {
+			lr := v.runLean(*verif, *prop, lc)
+			results[lr.Name] = lr
+			assumptions["lemma "+lc.File+" is machine-checked by Lean 4 over definitions generated from the contract file (the Lean kernel is trusted)"] = true
 		}
 	}
 	for _, s := range stale {
